@@ -1,4 +1,5 @@
 import LzmaVerif.Proofs.Filters
+import LzmaVerif.Proofs.Bcj2
 import LzmaVerif.Proofs.Stream
 /-!
 # C11 — BCJ and Delta filters are exact inverses (and match the reference)
@@ -16,7 +17,13 @@ theorems transfer to the real code for the sampled inputs and from there, by the
 * the alignment hypotheses are exactly what the XZ format requires of `start_offset`
   (`Options.filterOk`); `arm_misaligned_start_breaks` shows they are necessary.
 
-NOT covered here: BCJ2 (decoder only in the crate, no encoder to invert; see DESIGN.md).
+* `bcj2_reader_reconstructs` – BCJ2 (the crate has only the decoder): a model of `BCJ2Reader` /
+  `Bcj2Decoder::decode` (four streams, range decoder with 2+256 adaptive probabilities, absolute big-endian
+  targets, wrapping ip) inverts a model ENCODER for every byte string and every per-opcode convert
+  decision; the encoder is valid by construction (same contexts as the decoder, 7-Zip's flush).  The real
+  reader is tied to the model on every run: a Rust port of the model encoder (checked byte for byte against
+  the model) feeds the real reader through sources that deliver 1..7 bytes per call, and damaged streams
+  must get the model's verdict.  Not covered: agreement of that encoder with 7-Zip's own (no 7-Zip here).
 -/
 namespace LzmaVerif.Props.C11
 open LzmaVerif LzmaVerif.Filters
@@ -60,5 +67,11 @@ theorem arm_misaligned_start_breaks :
 /-- non-vacuity: a buffer with a converted branch -/
 example : oneShot .arm true 8 [1, 0, 0, 0xEB] ≠ [1, 0, 0, 0xEB] ∧
     oneShot .arm false 8 (oneShot .arm true 8 [1, 0, 0, 0xEB]) = [1, 0, 0, 0xEB] := by decide
+
+/-- BCJ2: the reader model reconstructs the original bytes from every correctly encoded four-stream input -/
+theorem bcj2_reader_reconstructs (convert : Nat → Bool) (data : List Nat) (h : ∀ b ∈ data, b < 256) :
+    Bcj2.decode (Bcj2.encode convert data).main (Bcj2.encode convert data).call (Bcj2.encode convert data).jump
+      (Bcj2.encode convert data).rc data.length = .ok data :=
+  Bcj2.bcj2_roundtrip convert data h
 
 end LzmaVerif.Props.C11
